@@ -84,6 +84,11 @@ C04)
   (cd $REPO && go build -o "$W/goose" ./cmd/goose) || { echo "harness error: goose does not build" >&2; exit 3; }
   EXTRA_ARGS="-bin $W/goose"
   ;;
+C03)
+  build "$W/bin" ./cmd/$LC || exit 3
+  (cd $REPO && go build -o "$W/goose" ./cmd/goose) || { echo "harness error: goose does not build" >&2; exit 3; }
+  EXTRA_ARGS="-bin $W/goose"
+  ;;
 *) echo "unknown property $ID" >&2; exit 3;;
 esac
 
